@@ -38,6 +38,7 @@ type c06Scn struct {
 	Name       string
 	Conns      []c06ConnSpec
 	SwarmClose bool // Swarm.Close() from its own thread
+	TwoClosers bool // ... and a second, overlapping Swarm.Close() from another thread: EVERY Close call returns only after the callbacks
 	Notifiees  int
 }
 
@@ -232,12 +233,22 @@ func c06Body(sc c06Scn) func(x *vs.Exec) {
 				closeEnd = vs.Stamp()
 			})
 		}
+		var closeEnd2 int64
+		if sc.SwarmClose && sc.TwoClosers {
+			s.Go("swarm-close-2", func() {
+				env.Swarm.Close()
+				closeEnd2 = vs.Stamp()
+			})
+		}
 		ok := s.Run()
 		if !ok {
 			if s.Deadlock != "" {
 				x.Fail("deadlock", "threads blocked forever: %s", s.Deadlock)
 			}
 		} else {
+			if closeEnd2 > 0 && closeEnd2 < closeEnd {
+				closeEnd = closeEnd2 // the Close call that returned first is the one every callback must precede
+			}
 			c06Oracle(x, sc, env, runs, notifiees, handlers, sub, closeStart, closeEnd)
 		}
 		x.Outcome = c06Outcome(env, runs, notifiees[0], closeEnd)
@@ -386,10 +397,28 @@ func c06Oracle(x *vs.Exec, sc c06Scn, env *fxEnv, runs []*c06ConnRun, notifiees 
 		}
 		// the connections listed for the peer are exactly the admitted, still-open ones
 		want := map[network.Conn]bool{}
+		nDirect, nLimited := 0, 0
 		for _, r := range runs {
 			if fxID(r.spec.Peer).ID == p && r.err == nil && r.c != nil && !r.fc.isClosed() && !swarmClosed {
 				want[network.Conn(r.c)] = true
+				if r.spec.Limited {
+					nLimited++
+				} else {
+					nDirect++
+				}
 			}
+		}
+		// "actual connectedness" is what the admitted, still-open connections imply - not what the swarm says:
+		// Connected with at least one unlimited connection, Limited with limited ones only, NotConnected with none
+		implied := network.NotConnected
+		if nDirect > 0 {
+			implied = network.Connected
+		} else if nLimited > 0 {
+			implied = network.Limited
+		}
+		if actual != implied {
+			x.Fail("connectedness-differs-from-open-connections", "peer %s: Connectedness() says %v, the open connections (%d unlimited, %d limited) imply %v (events %v)", p, actual, nDirect, nLimited, implied, evs)
+			return
 		}
 		got := env.Swarm.ConnsToPeer(p)
 		var gs []string
@@ -418,14 +447,17 @@ func c06Scenarios(thorough bool) []c06Scn {
 		{Name: "inbound closed from inside Connected", Conns: []c06ConnSpec{in("P", "in-connected", true)}, Notifiees: 2},
 		{Name: "outbound dial + app-close as soon as visible", Conns: []c06ConnSpec{{Peer: "P", Outbound: true, Closer: "app"}}, Notifiees: 1},
 		{Name: "inbound vs Swarm.Close", Conns: []c06ConnSpec{in("P", "", true)}, SwarmClose: true, Notifiees: 1},
+		{Name: "inbound vs two overlapping Swarm.Close calls", Conns: []c06ConnSpec{in("P", "", false)}, SwarmClose: true, TwoClosers: true, Notifiees: 1},
 		{Name: "direct + limited to one peer, both close", Conns: []c06ConnSpec{in("P", "app-after", false), {Peer: "P", Limited: true, Closer: "remote"}}, Notifiees: 1},
 		{Name: "direct + limited to one peer, the direct one closes, the limited one stays", Conns: []c06ConnSpec{in("P", "app-after", false), {Peer: "P", Limited: true}}, Notifiees: 1},
+		{Name: "direct then limited to one peer, both stay open", Conns: []c06ConnSpec{in("P", "", false), {Peer: "P", Limited: true}}, Notifiees: 1},
 		{Name: "two inbound of one peer, both close", Conns: []c06ConnSpec{in("P", "app", false), in("P", "remote", false)}, Notifiees: 1},
 	}
 	if thorough {
 		scs = append(scs,
 			c06Scn{Name: "outbound dial vs Swarm.Close", Conns: []c06ConnSpec{{Peer: "P", Outbound: true}}, SwarmClose: true, Notifiees: 1},
 			c06Scn{Name: "inbound app-close vs Swarm.Close", Conns: []c06ConnSpec{in("P", "app", false)}, SwarmClose: true, Notifiees: 1},
+			c06Scn{Name: "limited then direct to one peer, both stay open", Conns: []c06ConnSpec{{Peer: "P", Limited: true}, in("P", "", false)}, Notifiees: 1},
 			c06Scn{Name: "limited closes then direct opens", Conns: []c06ConnSpec{{Peer: "P", Limited: true, Closer: "app"}, in("P", "", false)}, Notifiees: 1},
 			c06Scn{Name: "two peers open and close", Conns: []c06ConnSpec{in("P", "app", false), in("Q", "in-connected", false)}, Notifiees: 1},
 		)
